@@ -103,3 +103,23 @@ Theorem C07_monitor_sound : forall c acts,
   WorldMon.all_steps WorldMon.job_step (WorldC.project (init c)) (MonSound.msteps (init c) acts) = true.
 Proof. exact MonSound.job_monitor_sound. Qed.
 Print Assumptions C07_monitor_sound.
+
+(* The at-rest clause of the monitor (job_final, evaluated on the IMPLEMENTATION's final state: for a completed trial, with retain
+   the run object is still there if it was ever created, without retain it is gone) holds on the model's own projections for
+   every history without teardown and external deletion that ends quiescent with the environment done. *)
+From KV Require Proofs.WorldRest4.
+Theorem C07_monitor_at_rest_sound : forall c acts,
+  valid_cfg c -> job_safe_acts acts -> quiescent (run c acts) ->
+  WorldMon.env_done (WorldC.project (run c acts)) = true ->
+  forall k, WorldC.k_cfg k = c -> WorldC.k_jobcreates k = g_jobcreates (run c acts) ->
+  WorldMon.job_final k (WorldC.project (run c acts)) = true.
+Proof. exact WorldRest4.job_final_model. Qed.
+Print Assumptions C07_monitor_at_rest_sound.
+
+Theorem C07_monitor_at_rest_premises_satisfiable :
+  valid_cfg F18.f18_cfg /\ job_safe_acts F18.f18_acts /\ quiescent (run F18.f18_cfg F18.f18_acts) /\
+  WorldMon.env_done (WorldC.project (run F18.f18_cfg F18.f18_acts)) = true /\ c_retain F18.f18_cfg = true /\
+  g_jobcreates (run F18.f18_cfg F18.f18_acts) = [1%nat; 2%nat] /\
+  map t_completed (w_trials (run F18.f18_cfg F18.f18_acts)) = [true; true].
+Proof. exact WorldRest4.job_final_premises_hold. Qed.
+Print Assumptions C07_monitor_at_rest_premises_satisfiable.
